@@ -942,14 +942,19 @@ impl State {
         match x {
             Xfn::Native(x) => x.0(self),
             Xfn::Interp(x) => {
-                let return_to = self.ip();
+                // run the word alone: it returns past the end of the code, not
+                // into the code compiled so far, then the build goes on
+                let resume_at = self.ip();
+                let return_to = self.code.len();
                 self.push_return(Frame {
                     fn_addr: x,
                     return_to,
                     locals: Default::default(),
                 })?;
                 self.set_ip(x);
-                self.run()
+                self.run()?;
+                self.set_ip(resume_at);
+                OK
             }
         }
     }
